@@ -81,8 +81,8 @@ namespace hs
         install_error_handlers(0);
     }
 
-    // two interchangeable sets of error handlers; each run installs the set its seed picks, so a handler that the
-    // library remembered from an earlier failure (instead of the installed one) shows as a stale call
+    // two interchangeable sets of error handlers; a run starts with set 0 and switches after every failure, so a
+    // handler that the library remembered from an earlier failure (instead of the installed one) shows as stale
     int g_error_handler_set = 0;
     void install_error_handlers(int set)
     {
@@ -242,7 +242,7 @@ namespace hs
                    (std::uint64_t)p.num("hseed", 1));
         try
         {
-            install_error_handlers(int(p.num("seed", 0) & 1));
+            install_error_handlers(0); // (every run starts with set 0: what a run sees must not depend on earlier runs)
             check_handler_registration();
             op_make(0);
             for (std::size_t i = 0; i < p.ops.size(); ++i)
@@ -837,6 +837,8 @@ namespace hs
                         "allocation threw %s: a bad_alloc that is neither the upstream's own exception nor "
                         "of the library's out_of_memory / bad_allocation_size families",
                         f.type.c_str());
+            // the next failure of this run must call the other set
+            install_error_handlers(1 - g_error_handler_set);
             if (h.stale_calls)
                 violate("C03", "handler_stale", "a failure called an error handler that had been replaced by "
                                                 "set_handler() before (%s)",
